@@ -8,6 +8,9 @@ import (
 
 	goat "github.com/avos-io/goat"
 	"github.com/avos-io/goat/gen/goatorepo"
+	"google.golang.org/grpc"
+	"google.golang.org/grpc/codes"
+	"google.golang.org/grpc/status"
 )
 
 // c20ServerReset: a stream the SERVER resets (the envelope goat's server writes for a body of a stream
@@ -101,6 +104,68 @@ func c20ServerReset(r *Run) {
 				cc.Close()
 				settleGoroutines(0)
 			}
+		}
+	}
+}
+
+// c20WrappedError: server interceptors (unary and stream, two stages each) that annotate the handler's
+// error by wrapping it (fmt.Errorf("stage k: %w", err)). What leaves the chain still carries the
+// handler's status: the caller of a unary call and of a stream observe its code.
+func c20WrappedError(r *Run) {
+	if !r.Want("chain") {
+		return
+	}
+	var unary []grpc.UnaryServerInterceptor
+	var stream []grpc.StreamServerInterceptor
+	for k := 0; k < 2; k++ {
+		k := k
+		unary = append(unary, func(ctx context.Context, req any, info *grpc.UnaryServerInfo, next grpc.UnaryHandler) (any, error) {
+			out, err := next(ctx, req)
+			if err != nil {
+				return nil, fmt.Errorf("stage %d: %w", k, err)
+			}
+			return out, nil
+		})
+		stream = append(stream, func(srv any, ss grpc.ServerStream, info *grpc.StreamServerInfo, next grpc.StreamHandler) error {
+			if err := next(srv, ss); err != nil {
+				return fmt.Errorf("stage %d: %w", k, err)
+			}
+			return nil
+		})
+	}
+	rig := NewRig(RigOpt{Serialise: true, SrvOpts: []goat.ServerOption{goat.ChainUnaryInterceptor(unary...), goat.ChainStreamInterceptor(stream...)}})
+	defer rig.Close()
+	rig.Impl.SetUnary(func(ctx context.Context, req []byte) ([]byte, error) {
+		return nil, status.Error(codes.PermissionDenied, "no")
+	})
+	rig.Impl.SetStream(func(m string, ss grpc.ServerStream) error {
+		recvB(ss)
+		return status.Error(codes.PermissionDenied, "no")
+	})
+	for _, kind := range []string{"unary", mBidi, mSrvStream, mCliStream} {
+		in := map[string]any{"kind": kind, "interceptors": "two stages, each wraps the error it passes on", "handler": "PermissionDenied"}
+		r.Progress("chain.wrapped", in)
+		var err error
+		ctx, cancel := context.WithTimeout(context.Background(), 2*hangTimeout)
+		if kind == "unary" {
+			_, err = callUnary(ctx, rig.CC, []byte("x"))
+		} else if cs, e := rig.CC.NewStream(ctx, descOf(kind), kind); e != nil {
+			err = e
+		} else {
+			sendB(cs, []byte("m"))
+			cs.CloseSend()
+			for {
+				if _, e := recvB(cs); e != nil {
+					err = e
+					break
+				}
+			}
+		}
+		cancel()
+		r.Eval("chain.wrapped/"+kind, true)
+		r.Count("chain.wrapped")
+		if status.Code(err) != codes.PermissionDenied {
+			r.Violate("chain.wrapped", "ops", "the error the interceptor chain returned wraps the handler's status, but the caller did not observe its code", in, fmt.Sprint(err), "PermissionDenied")
 		}
 	}
 }
